@@ -61,6 +61,9 @@ def xbucket(exc: BaseException) -> str:
     return b
 
 
+_CARET_RANGE_FIRST = re.compile(r"\[\\\^-[^\]]")
+
+
 def tree_features(regex: Any) -> Set[str]:
     """dot / complement / surrogate / astral, read off the parsed tree (replay has no AST)."""
     f = set()  # type: Set[str]
@@ -139,6 +142,9 @@ def compare(P: str, Q: str, feats: Set[str], strings: Sequence[str]) -> Tuple[Li
     except (re.error, OverflowError) as e:
         return [("rewritten-pattern-invalid", f"{P!r} -> {Q!r}: {e}", "")], [], True
     doms = [domain(feats, s) for s in strings]
+    # the renderer drops the end of a range that starts with an escaped caret at the head of a set
+    # (found by C16, proposed fix C16-caret-range-first-in-set-loses-end.diff): own bucket
+    caret = bool(_CARET_RANGE_FIRST.search(P)) and "[\\^]" in Q
 
     def run() -> None:
         for s, d in zip(strings, doms):
@@ -146,7 +152,8 @@ def compare(P: str, Q: str, feats: Set[str], strings: Sequence[str]) -> Tuple[Li
             a = (cp.match(s) is not None, cp.fullmatch(s) is not None)
             b = (cq.match(u) is not None, cq.fullmatch(u) is not None)
             if a != b:
-                fails.append((f"lang-differs:{d}",
+                fails.append(("lang-differs:caret-range-first-in-set-rendered-without-end" if caret
+                              else f"lang-differs:{d}",
                               f"P={P!r} Q={Q!r} s={s!r} u16(s)={u!r}: P (match, fullmatch)={a}, Q={b}", s))
 
     finished, _ = regen.cpu_limited(run)
